@@ -326,7 +326,7 @@ static std::string structure_error(const Raw& r, int node)
 }
 
 // ------------------------------------------------------------------------------------------------ operations
-enum OpK { O_CONV = 1, O_CLONE, O_TRANS, O_PERM, O_LAYOUT, O_GRAPH, O_MIRROR, O_SHRINK /* relatives phase only */, O_XCLONE /* cross-type clone: a=mode, b=target node */ };
+enum OpK { O_CONV = 1, O_CLONE, O_TRANS, O_PERM, O_LAYOUT, O_GRAPH, O_MIRROR, O_SHRINK /* relatives phase only */, O_XCLONE /* cross-type clone: a=mode, b=target node */, O_COPY /* relatives phase only: t.copy(x, full=a) */ };
 struct Op;
 struct Op { int k = 0, a = 0, b = 0; };
 static bool is_clone(const Op& o) { return o.k == O_CLONE || o.k == O_XCLONE; }
@@ -378,6 +378,7 @@ static std::string op_name_build(const Op& o, int src)
   case O_GRAPH: s << "ctor(Graph(as_is)) " << node_name[src]; break;
   case O_MIRROR: s << "CSCR(csr,mirror of non-empty rows) " << node_name[src]; break;
   case O_SHRINK: s << "shrink(1) " << node_name[src]; break;
+  case O_COPY: s << (o.a ? "copy(x,full=true) " : "copy(x) ") << node_name[src]; break;
   }
   return s.str();
 }
@@ -582,6 +583,13 @@ static ObjP apply_op(const Op& o, ObjP& X, const Model& M, ObjP* target = nullpt
         }
       }
       break;
+    case O_COPY:
+    {
+      auto y = take_target<ns>(target);
+      y->mat.copy(x.mat, o.a != 0);
+      Y = std::move(y);
+      break;
+    }
     case O_SHRINK:
       if constexpr(NodeT<ns>::fmt == F_CSR) { x.mat.shrink(typename MS::DataType(1)); Y = std::move(X); }
       break;
@@ -1100,6 +1108,53 @@ struct Search
         const Raw ry = raw_of(*Y);
         check_state(*Y, ry, M2, opn + " applied to a " + rel_name[rk], M, true);
         if(okey(*X) != kx) fail_once(opn + " applied to a " + rel_name[rk] + ": changes the matrix it was made from", "source now " + lay_str(actual(raw_of(*X), ns)));
+      }
+    }
+    // ---- self-aliasing: the matrix itself is the source of an operation that writes into it (x.op(x)), wherever the
+    //      API does not forbid it (clone(x) of itself aborts by contract)
+    {
+      std::vector<Op> selfops;
+      if(transpose_target(ns) == ns) selfops.push_back(Op{O_TRANS, 0, 0});
+      selfops.push_back(Op{O_CONV, ns, 0});
+      if(has_layout(ns)) selfops.push_back(Op{O_LAYOUT, 1, 0});
+      selfops.push_back(Op{O_COPY, 0, 0}); selfops.push_back(Op{O_COPY, 1, 0});
+      c.excluded("x.clone(x, mode): self-clone aborts by contract");
+      for(const Op& o : selfops)
+      {
+        Model M2 = M; model_step(M2, o);
+        const std::string opn = op_name(o, ns) + " with the matrix itself as source (x.op(x))";
+        const bool defined = (o.k != O_LAYOUT);
+        Model Mt; ObjP X = replay(hist, Mt);
+        ObjP Y = apply_op(o, X, M, &X);
+        c.count("transitions"); c.count("relative_scenarios"); c.count("self_aliasing_operations");
+        if(!Y) { fail_once(opn + ": harness could not apply", ""); continue; }
+        const Raw ry = raw_of(*Y);
+        if(o.k == O_CONV && okey(*Y) != kx) { fail_once(std::string("x.convert(x) ") + node_name[ns] + ": the matrix is not preserved", "now " + lay_str(actual(ry, ns))); continue; }
+        if(check_state(*Y, ry, M2, opn, M, defined)) check_pool(ry, nullptr, Y->node, opn);
+      }
+    }
+    // ---- copy(x, full) into existing targets of the same layout
+    for(int full = 0; full < 2; ++full)
+    {
+      const Op o{O_COPY, full, 0};
+      const std::string& opn0 = op_name(o, ns);
+      for(int tv = 0; tv < 3; ++tv)
+      {
+        Model Mt; ObjP X = replay(hist, Mt);
+        ObjP Sb, T; std::string ks;
+        if(tv == 0) { T = make_relative(*X, R_LAYOUT); if(T) write_values(*T, [](Index i) { return 300.0 + double(i); }); }
+        else if(tv == 1) { T = make_derived(D_DEEP, X); if(T) scale_values(*T, -1.0); }
+        else { Sb = build_object(other_matrix(M, 0)); if(Sb) { T = make_relative(*Sb, R_WEAK); ks = okey(*Sb); } }
+        if(!T) continue;
+        static const char* tn[3] = {" into a Layout clone of the source", " into an independent matrix of the same layout", " into a Weak clone of another matrix with the same pattern"};
+        const std::string opn = opn0 + tn[tv];
+        ObjP Y = apply_op(o, X, M, &T);
+        c.count("transitions"); c.count("relative_scenarios"); c.count("bystanders_checked");
+        if(!Y) continue;
+        const Raw ry = raw_of(*Y);
+        check_state(*Y, ry, M, opn, M, true);
+        if(okey(*X) != kx) fail_once(opn + ": source matrix modified", "");
+        if(Sb && okey(*Sb) != ks) fail_once(opn + ": changes that other matrix", "");
       }
     }
     // ---- operations with an explicit target, executed into an existing target that has relatives
